@@ -136,11 +136,13 @@ vector<uint8_t> RadioTapWriter::build_padding_vector(const uint8_t* last_ptr,
 
 // Iterates the padding vector and extends/compacts the paddings as needed
 void RadioTapWriter::update_paddings(const vector<uint8_t>& paddings, uint32_t offset) {
+    // Invariant: paddings[i] describes the byte that currently lives at buffer_[offset]
     size_t i = 0;
     while (i != paddings.size()) {
         // Skip everything that doesn't need padding
         while (i != paddings.size() && paddings[i] == 1) {
             ++i;
+            ++offset;
         }
         const size_t start = i;
         // Find the next field
@@ -150,21 +152,19 @@ void RadioTapWriter::update_paddings(const vector<uint8_t>& paddings, uint32_t o
         if (i == paddings.size()) {
             break;
         }
-        offset += start;
-        const uint8_t needed_padding = calculate_padding(paddings[i], offset + sizeof(uint32_t));
-        const size_t existing_padding = i - start;
+        const uint32_t needed_padding = calculate_padding(paddings[i], offset + sizeof(uint32_t));
+        const uint32_t existing_padding = static_cast<uint32_t>(i - start);
         // Remove padding if there's too much
         if (existing_padding > needed_padding) {
             buffer_.erase(buffer_.begin() + offset,
                           buffer_.begin() + offset + (existing_padding - needed_padding));
-            offset -= existing_padding - needed_padding;
         }
         // Add padding if there's too little
         else if (existing_padding < needed_padding) {
             buffer_.insert(buffer_.begin() + offset, needed_padding - existing_padding, 0);
-            offset += needed_padding - existing_padding;
         }
-        offset += i - start;
+        // Step over the padding and the first byte of this field
+        offset += needed_padding + 1;
         ++i;
     }
 }
